@@ -1040,6 +1040,15 @@ func AddClutter(t *tape.Tape, a *GConf) []string {
 			}
 			a.ACLs = append(a.ACLs, acl)
 		}
+		if t.Next(4) == 0 {
+			// A manually configured group nests a generated-looking group;
+			// an untagged ACL bound nowhere uses the outer one.
+			a.Groups = append(a.Groups, GGroup{"nested-DRC-0", []GAddr{{Kind: "host", Val: "10.77.0.11"}}},
+				GGroup{"manual_outer", []GAddr{{Kind: "host", Val: "10.77.0.12"}, {Kind: "groupobj", Val: "nested-DRC-0"}}})
+			a.ACLs = append(a.ACLs, GACL{Name: "manual_nest_acl", Lines: []GACE{
+				{Permit: true, Proto: "ip", Src: GAddr{Kind: "group", Val: "manual_outer"}, Dst: GAddr{Kind: "any"}}}})
+			what = append(what, "manual group nesting a tagged group (group-object)")
+		}
 		if t.Next(2) == 0 {
 			a.Clutter = append(a.Clutter,
 				&cisco.Obj{Head: "snmp-server host inside 10.9.9.9 community xyz", Opaque: true},
